@@ -93,7 +93,7 @@ namespace fastscapelib
             if ((*p_jobs)[i] != nullptr)
             {
                 FS_VERIF_POINT(7, i);
-                m_has_job[i].store(1, std::memory_order_relaxed);
+                m_has_job[i].store(1, std::memory_order_release);
             }
         FS_VERIF_POINT(8, m_size);
     }
@@ -125,7 +125,12 @@ namespace fastscapelib
         if (m_paused)
         {
             FS_VERIF_POINT(3, m_size);
-            m_cv.notify_all();
+            {
+                // notify while holding the mutex: a worker that has counted itself as paused
+                // but has not reached wait() yet still holds it, so no wake-up can be lost
+                std::lock_guard<std::mutex> lk(m_cv_m);
+                m_cv.notify_all();
+            }
             FS_VERIF_POINT(4, m_size);
             m_paused = false;
             wait();
@@ -147,7 +152,7 @@ namespace fastscapelib
     {
         for (std::size_t i = 0; i < m_size; ++i)
         {
-            if (m_has_job[i].load(std::memory_order_relaxed))
+            if (m_has_job[i].load(std::memory_order_acquire))
                 return false;
         }
         return true;
@@ -213,12 +218,12 @@ namespace fastscapelib
                     {
                         while (!m_stopped.load(std::memory_order_relaxed))
                         {
-                            if (m_has_job[i].load(std::memory_order_relaxed))
+                            if (m_has_job[i].load(std::memory_order_acquire))
                             {
                                 FS_VERIF_POINT(5, i);
                                 (*p_jobs)[i]();
                                 FS_VERIF_POINT(6, i);
-                                m_has_job[i].store(0, std::memory_order_relaxed);
+                                m_has_job[i].store(0, std::memory_order_release);
                             }
                         }
                     });
